@@ -1,6 +1,12 @@
+from contextlib import contextmanager
+from contextvars import ContextVar
 from dataclasses import dataclass, field
+from typing import Optional
 
 from smartquery.scoped_dict import ScopedDict
+
+
+_active_state: ContextVar[Optional['VMState']] = ContextVar('smartquery_active_state', default=None)
 
 
 @dataclass
@@ -9,3 +15,17 @@ class VMState:
     ops_evaluated: int = 0
 
     max_ops_evaluated: int = 100
+
+    @contextmanager
+    def activate(self):
+        """Marks this state as the one of the evaluation in progress"""
+        token = _active_state.set(self)
+        try:
+            yield self
+        finally:
+            _active_state.reset(token)
+
+
+def active_state(default: VMState) -> VMState:
+    state = _active_state.get()
+    return state if state is not None else default
